@@ -399,6 +399,119 @@ _append_case = st.fixed_dictionaries(
 )
 
 
+# ---- part "api": the history endpoints of the front end
+
+
+def exec_api(case):
+    '''dawgie.fe.api.schedule.succeeded / failed with URL-style arguments
+    (ISO strings) against the brute-force window'''
+    import json
+
+    import dawgie.fe.api.schedule as api
+
+    out = core.Outcome()
+    clock = world.Clock()
+    root, chron = _setup(clock)
+    real_dt = api.datetime
+    try:
+        appended = []
+        for e in case['entries']:
+            rec = _mk_record(e)
+            chron.append(rec)
+            appended.append(rec)
+        now = instant(*case['last']) + datetime.timedelta(
+            seconds=case['now_off'] + 1)
+        clock.now = now
+        # bounds: a generated instant, or exactly the completion time of an
+        # entry (what a paging client sends back)
+        def bound(b):
+            if b is None:
+                return None
+            if b[0] == 'at':
+                e = case['entries'][b[1] % len(case['entries'])]
+                return instant(*e['t'])
+            return instant(*b[1])
+
+        after, before = bound(case['after']), bound(case['before'])
+        limit = case['limit']
+        fn = api.succeeded if case['succeeded'] else api.failed
+        status = 'success' if case['succeeded'] else 'failure'
+        raw = fn(after=[after.isoformat()] if after else None,
+                 before=[before.isoformat()] if before else None,
+                 limit=[str(limit)] if limit else None)
+        ans = json.loads(raw)
+        if ans.get('status') != 'success':
+            out.fail('api/query-failed', str(ans)[:300])
+            return out
+        res = ans['content']
+        lo = after or datetime.datetime(1980, 1, 1, tzinfo=datetime.UTC)
+        hi = before or now
+
+        def comp(e):
+            return datetime.datetime.fromisoformat(e['timing']['completed'])
+
+        window = sorted((r for r in appended
+                         if lo < comp(r) < hi and r['status'] == status),
+                        key=comp, reverse=True)
+        got = [_key(e) for e in res]
+        want = [_key(r) for r in window]
+        mode = ('A' if after else '') + ('B' if before else '') + (
+            'L' if limit else '')
+        out.label('mode-' + (mode or 'none'))
+        if case['before'] and case['before'][0] == 'at' or (
+                case['after'] and case['after'][0] == 'at'):
+            out.nontrivial = True
+            out.label('bound-equals-a-completion-time')
+        stray = [k for k in got if k not in want]
+        if stray:
+            out.fail('api/outside-window-or-outcome',
+                     f'mode={mode} after={after} before={before} '
+                     f'status={status}: {stray[:2]}')
+        times = [k[0] for k in got]
+        if times != sorted(times, reverse=True):
+            out.fail('api/not-newest-first', f'{times[:6]}')
+        if mode in ('AB', 'ABL', 'A', 'B') and not stray:
+            if sorted(got) != sorted(want):
+                missing = [k for k in want if k not in got]
+                out.fail('api/window-not-exact',
+                         f'mode={mode} after={after} before={before} '
+                         f'missing={missing[:2]} got={len(got)} '
+                         f'want={len(want)}')
+        elif mode in ('BL', 'L') and not stray:
+            n = min(limit, len(want))
+            if got != want[:n] and sorted(k[0] for k in got) != sorted(
+                    k[0] for k in want[:n]):
+                out.fail('api/truncation-not-newest',
+                         f'mode={mode} limit={limit}: {len(got)} entries, '
+                         f'newest expected {len(want[:n])}')
+    finally:
+        api.datetime = real_dt
+        world.rm(root)
+    return out
+
+
+@st.composite
+def _api_case(draw):
+    entries = draw(st.lists(_entry, min_size=1, max_size=10))
+    b = st.one_of(
+        st.tuples(st.just('at'), st.integers(0, 9)).map(list),
+        st.tuples(st.just('t'), _inst).map(list),
+    )
+    mode = draw(st.sampled_from(['both', 'both', 'before', 'before+limit',
+                                 'limit', 'after']))
+    after = draw(b) if mode in ('both', 'after') else None
+    before = draw(b) if 'before' in mode or mode == 'both' else None
+    limit = draw(st.integers(1, 6)) if 'limit' in mode else None
+    last = max(instant(*e['t']) for e in entries)
+    return {
+        'entries': entries, 'after': after, 'before': before, 'limit': limit,
+        'succeeded': draw(st.booleans()),
+        'now_off': draw(st.integers(0, 86400)),
+        'last': [(last - EPOCH).days, (last - EPOCH).seconds,
+                 (last - EPOCH).microseconds],
+    }
+
+
 # ---- part "pipeline": every reply delivered to the farm is recorded once
 
 
@@ -474,6 +587,8 @@ def parts(tier):
                   cases=400 if q else 6000, batch=200),
         core.Part('complete', exec_complete, strategy=_complete_case,
                   cases=400 if q else 6000, batch=200),
+        core.Part('api', exec_api, strategy=_api_case(),
+                  cases=1200 if q else 30000, batch=300),
         core.Part('pipeline', exec_pipeline, strategy=_pipeline_strategy,
                   cases=800 if q else 20000, batch=200),
     ]
